@@ -153,4 +153,27 @@ Section BlockAlg.
     - eapply opeq_trans; [apply comp_hstack_right; exact WA|].
       apply hstack_opeq_tail; [exact IH|]. cbn [comp ran]. reflexivity.
   Qed.
+  (* ---- an operator matrix of any size built from adjoint pairs / linear blocks is an adjoint pair / linear ---- *)
+  Lemma vstack_list_ok (l : list linop) (z : linop) :
+    List.Forall (fun A => adjoint_pair A /\ wf A /\ dom A = dom z) l -> adjoint_pair z -> wf z ->
+    adjoint_pair (vstack_list l z) /\ wf (vstack_list l z) /\ dom (vstack_list l z) = dom z.
+  Proof.
+    intros Hl Pz Wz. induction Hl as [|A r (PA & WA & HA) _ IH]; cbn [vstack_list].
+    - repeat split; try assumption; apply Wz.
+    - destruct IH as (Pr & Wr & Dr). split; [|split].
+      + apply vstack_adjoint; [congruence|exact PA|exact Pr].
+      + apply vstack_wf; [congruence|exact WA|exact Wr].
+      + exact HA.
+  Qed.
+  Lemma hstack_list_ok (l : list linop) (z : linop) :
+    List.Forall (fun A => adjoint_pair A /\ wf A /\ ran A = ran z) l -> adjoint_pair z -> wf z ->
+    adjoint_pair (hstack_list l z) /\ wf (hstack_list l z) /\ ran (hstack_list l z) = ran z.
+  Proof.
+    intros Hl Pz Wz. induction Hl as [|A r (PA & WA & HA) _ IH]; cbn [hstack_list].
+    - repeat split; try assumption; apply Wz.
+    - destruct IH as (Pr & Wr & Dr). split; [|split].
+      + apply hstack_adjoint; [congruence|exact PA|exact Pr].
+      + apply hstack_wf; [congruence|exact WA|exact Wr].
+      + exact HA.
+  Qed.
 End BlockAlg.
